@@ -48,9 +48,9 @@ def obligations(tier, seed):
     for s in PLAIN: obs.append(dict(name='plain/' + s, kind='plain', script=s, args=['0x01'] if s.startswith('OP_IF') else []))
     # long pushes: every push form and the longest listing lines (a 520-byte push is a 1046-character line)
     for n in (75, 76, 255, 256, 508, 509, 520): obs.append(dict(name='plain/push-%d-bytes' % n, kind='plain', script='0x' + 'ab' * n + ' OP_SIZE OP_NIP', args=[]))
-    # every non-push opcode byte once, inside a branch that is not executed, given as a raw hex script: its listing line must name THAT operation
+    # every defined non-push opcode byte (0x4f..0xba) once, inside a branch that is not executed, given as a raw hex script: its listing line must name THAT operation
     # (seed C12-7 rendered 0x50 as "0"); conditionals are left out (they change the structure)
-    for o in range(0x4f, 0x100):
+    for o in range(0x4f, 0xbb):          # bytes above OP_CHECKSIGADD are refused as an invalid script before any listing exists
         if 0x63 <= o <= 0x68: continue
         obs.append(dict(name='plain/skipped-opcode-%02x' % o, kind='plainhex', hex='0063%02x6851' % o))
     for f in FIXTURES: obs.append(dict(name='fixture/' + f, kind='fixture', fx=f, timeout_s=900, cost=10))
